@@ -216,6 +216,27 @@ func (e *Engine) verifyFuncMode(c *Contract, mode string) (rep *FuncReport) {
 		s.assume(And(s.rangeFacts(v), s.refFacts(st, v)))
 		fr.params = append(fr.params, v)
 	}
+	// a closure under contract: its captured variables are cells of the enclosing function; in specifications their
+	// names denote the values the cells hold when the closure is entered (the closure must not reassign them)
+	if len(fn.FreeVars) > 0 {
+		fr.preVals = map[ssa.Value]Val{}
+		fr.env = map[string]Val{}
+		var cells []T
+		for _, fv := range fn.FreeVars {
+			cell := s.declConst("fv_"+fv.Name(), SInt)
+			s.assume(And(Ge(cell, I(1)), Le(cell, st.Top)))
+			for _, o := range cells {
+				s.assume(Not(Eq(cell, o))) // different variables live in different cells
+			}
+			cells = append(cells, cell)
+			cv := Val{Typ: fv.Type(), L: []T{cell}}
+			fr.preVals[fv] = cv
+			content := s.load(st, s.toLoc(cv))
+			s.assume(And(s.rangeFacts(content), s.refFacts(st, content)))
+			fr.env[fv.Name()] = content
+		}
+		s.note("closure %s verified on its own: captured variables are arbitrary cells of the enclosing frame", fn.String())
+	}
 	if fn.Signature.Recv() != nil && isPointer(fn.Params[0].Type()) && c.Options["nilrecv"] == "" {
 		s.assume(Gt(fr.params[0].L[0], I(0)))
 		s.note("receiver of %s assumed non-nil", fn.String())
